@@ -101,6 +101,21 @@ func runScript(root, wid string, segsize int64, meta []byte, ops []genOp, didc *
 	for _, op := range ops {
 		cnt := 0
 		switch op.kind {
+		case "reopen":
+			// end of a session: Close, then Open at the given snapshot and ReadAll for append
+			if err := w.Close(); err != nil {
+				return nil, fmt.Errorf("Close: %v", err)
+			}
+			w2, err := wal.Open(lg, dir, op.snap)
+			if err != nil {
+				return nil, fmt.Errorf("reopen: %v", err)
+			}
+			if _, _, _, err := w2.ReadAll(); err != nil {
+				w2.Close()
+				return nil, fmt.Errorf("reopen ReadAll: %v", err)
+			}
+			w = w2
+			prev = raftpb.HardState{} // ReadAll does not restore w.state
 		case "snap":
 			if err := w.SaveSnapshot(op.snap); err != nil {
 				return nil, fmt.Errorf("SaveSnapshot: %v", err)
@@ -196,6 +211,11 @@ func parseOpLine(fs []string) (genOp, error) {
 				Term: unhx(fs[6+4*i+1]), Index: unhx(fs[6+4*i+2]), Data: d})
 		}
 		return op, nil
+	case "OPREOPEN":
+		if len(fs) != 4 {
+			return genOp{}, fmt.Errorf("bad OPREOPEN")
+		}
+		return genOp{kind: "reopen", snap: walpb.Snapshot{Index: unhx(fs[2]), Term: unhx(fs[3])}}, nil
 	case "OPSNAP":
 		if len(fs) != 5 {
 			return genOp{}, fmt.Errorf("bad OPSNAP")
@@ -231,7 +251,7 @@ func scriptCmd(args []string) error {
 				return err
 			}
 			meta = m
-		case "OPSAVE", "OPSNAP":
+		case "OPSAVE", "OPSNAP", "OPREOPEN":
 			op, err := parseOpLine(fs)
 			if err != nil {
 				return err
